@@ -410,6 +410,9 @@ func c15Judge(ctx *core.Ctx, name string, m *manifest, positions bool) bool {
 		}
 		ctx.State("rejected")
 		ctx.Flag("c15:rejected")
+		if ctx.WantSample() && len(unsafe) > 0 && len(m.Entries) >= 2 {
+			ctx.Sample(map[string]any{"manifest": m.Text, "accepted": false, "unsafe_entries": unsafe, "error": err.Error()})
+		}
 		return true
 	}
 	// accepted
@@ -452,6 +455,9 @@ func c15Judge(ctx *core.Ctx, name string, m *manifest, positions bool) bool {
 		ctx.Flag("c15:positions-checked")
 	}
 	ctx.State("accepted")
+	if ctx.WantSample() && len(m.Entries) >= 2 && strings.ContainsAny(strings.Join(m.Entries, ""), "%\\") {
+		ctx.Sample(map[string]any{"manifest": m.Text, "accepted": true, "returned": mf.Contents.Value})
+	}
 	return true
 }
 
